@@ -71,6 +71,11 @@ mk_helper!(h6, 6);
 mk_helper!(h7, 7);
 pub const HELPERS: [fn(u64, u64, u64, u64, u64) -> u64; NSLOTS] = [h0, h1, h2, h3, h4, h5, h6, h7];
 
+/// Never the function that should run (see run_case_inner).
+fn decoy_helper(_a: u64, _b: u64, _c: u64, _d: u64, _e: u64) -> u64 {
+    0xdec0_dec0_dec0_dec0
+}
+
 pub fn set_helper_id(slot: usize, id: u32) {
     IDS.with(|t| t.borrow_mut()[slot] = id);
 }
@@ -269,6 +274,11 @@ fn run_case_inner(case: &Value, engine: &str, own_hook: bool) -> Value {
             t[k] = *id as i32 as u32;
         }
     });
+    // (registering a function under an id that is already taken replaces the earlier function:
+    // a decoy goes in first under every id)
+    for id in ids.iter() {
+        vm.register_helper(*id as i32 as u32, decoy_helper).unwrap();
+    }
     for (k, id) in ids.iter().enumerate() {
         vm.register_helper(*id as i32 as u32, HELPERS[k]).unwrap();
     }
